@@ -91,6 +91,9 @@ def from_permeances(rng):
                           permeate_pressure=junk)
     d2 = pv.DiffusionCurve(mixture=mix, membrane_name="verif", feed_temperature=T, feed_compositions=comps,
                            partial_fluxes=[tuple(f) for f in d.partial_fluxes])
+    # a third construction: fluxes AND permeances supplied together (permeances still in the caller's unit)
+    d3 = pv.DiffusionCurve(mixture=mix, membrane_name="verif", feed_temperature=T, feed_compositions=comps,
+                           partial_fluxes=[tuple(f) for f in d.partial_fluxes], permeances=list(perms))
     tr = [{"ev": "CurveFromPermeances", "units": units, "T": F(T), "basis": basis, "mixname": mix.name, "probe": False}]
     for k, c in enumerate(comps):
         pf = pv.get_partial_pressures(T, mix, c)
@@ -98,7 +101,9 @@ def from_permeances(rng):
                    "Pexposed": [F(d.permeances[k][0].value), F(d.permeances[k][1].value)],
                    "Punits": [d.permeances[k][0].units, d.permeances[k][1].units],
                    "J": [F(d.partial_fluxes[k][0]), F(d.partial_fluxes[k][1])], "pf": [F(pf[0]), F(pf[1])],
-                   "Pre": [F(d2.permeances[k][0].value), F(d2.permeances[k][1].value)]})
+                   "Pre": [F(d2.permeances[k][0].value), F(d2.permeances[k][1].value)],
+                   "Pboth": [F(d3.permeances[k][0].value), F(d3.permeances[k][1].value)],
+                   "Pboth_units": [d3.permeances[k][0].units, d3.permeances[k][1].units]})
     return tr
 
 
